@@ -239,7 +239,7 @@ namespace {
             }
             ctx.program = p;
         }
-        sim_config sc = draw_sim_config(ctx, 120000, FAULT_STALL | FAULT_TRYFAIL | FAULT_CLOCKJUMP);
+        sim_config sc = draw_sim_config(ctx, 120000, FAULT_STALL | FAULT_TRYFAIL | FAULT_CLOCKJUMP | FAULT_SPURIOUS);
         begin_sim(ctx, sc);
         focus_select(ctx, c05_focus, 3);
         g_dump_hook = +[]() -> std::string {
